@@ -279,6 +279,15 @@ def sessions(ctx, cfgs, mode, opts_for=lambda k: {}):
                 nodes = [dict(n, id=rid(n["id"])) for n in nodes]
                 links = [dict(l, a=rid(l["a"]), b=rid(l["b"])) for l in links]
                 chroms = [dict(c, elems=[dict(e, ns=[rid(x) for x in e["ns"]]) for e in c["elems"]]) for c in chroms]
+            if mode == "C18" and k % 3 == 0 and not any(not n["id"].startswith("s") for n in nodes):
+                # an unplaced assembly contig (three segments, none of reference rank) that nobody asks for; its S lines stand
+                # right behind those of the last unorderable chromosome
+                bad_ids = [x for c in chroms if c["bad"] for e in c["elems"] for x in e["ns"]]
+                base_id = max(bad_ids, key=lambda x: (len(x), x)) if bad_ids else None
+                if base_id:
+                    x1, x2, x3 = base_id + "x1", base_id + "x2", base_id + "x3"      # (a chain of its own: tip - segment - tip)
+                    nodes = nodes + [{"id": x, "sn": "unplaced_ctg7", "so": 2 * j, "ln": 2, "sr": 1} for j, x in enumerate((x1, x2, x3))]
+                    links = list(links) + [{"a": x1, "ao": "+", "b": x2, "bo": "+"}, {"a": x2, "ao": "+", "b": x3, "bo": "+"}]
             jobs.append((f"{cfg[12:-4]}-{k}", {"nodes": nodes, "links": links, "chroms": chroms}, mode, ctx.seed * 1009 + k, opts_for(k)))
     return jobs
 
